@@ -161,16 +161,20 @@ func (s *store) bootstrap() error {
 
 func (s *store) close() error {
 	s.mu.Lock()
-	defer s.mu.Unlock()
-
 	select {
 	case <-s.closing:
 		// already closed
+		s.mu.Unlock()
 		return nil
 	default:
 		close(s.closing)
-		return s.raftState.close()
 	}
+	raftState := s.raftState
+	s.mu.Unlock()
+
+	// Shutting raft down waits for its state machine goroutine, and Apply
+	// takes s.mu: the lock must not be held here.
+	return raftState.close()
 }
 
 func (s *store) snapshot() (*Data, error) {
